@@ -63,6 +63,18 @@ CLAIMED["C09"] = dict(
     note=TRUST + "; sqlite3/SQLAlchemy transactions; epoch rows are the pre-populated calendar of the configured span",
     engine="resonaate-system", category="model_checking")
 
+CLAIMED["C14"] = dict(
+    text=("Visibility.tla evaluates field-of-view, azimuth/elevation-mask, line-of-sight, Earth-limb and Sun-fraction predicates in "
+          "exact integer arithmetic on lattices (azimuth circle Z_360 with the seam at 1 degree resolution, lattice cube of side 7 "
+          "Earth radii); TLC checks reflexivity, rotation invariance across the north seam, line-of-sight symmetry and closed form = "
+          "segment test, limb = blocked ray, mask complement/equivariance as spec theorems. Every expected answer with its exact "
+          "margin (about 210k quick / 3.0M thorough) is replayed into the real inFieldOfView, Sensor.isVisible, lineOfSight, "
+          "checkSpaceSensorEarthLimbObscuration and calculateSunVizFraction, plus rotated twins and seeded off-lattice relation "
+          "checks; margin 0 (exactly on an edge) is undecided."),
+    ref="5 C14", technique="TLA+ exact-lattice spec Visibility.tla + TLC as oracle; spec->impl replay of every emitted state",
+    note=TRUST + "; degree/lattice-to-float projection in harness/drivers/c14.py; off-lattice inputs are compared with double-precision formulas outside a 1e-9 band",
+    engine="visibility")
+
 NOT_APPLICABLE = {
     "C13": ("an explicit TLA+ specification cannot evaluate a degree-20 spherical-harmonic gradient or analytic ephemerides; "
             "the property IS equality with an independent numerical reference, which would be differential testing, a "
